@@ -68,6 +68,8 @@ impl PurlShape for Fam {
                 'f' => return Err(FamError::Hook),
                 'n' => parts.name = Default::default(),
                 's' => parts.namespace = "Hook//Ns/".into(),
+                'S' => parts.namespace = "//".into(),
+                'U' => parts.subpath = "./c//..".into(),
                 'v' => parts.version = "".into(),
                 'V' => parts.version = "9%".into(),
                 'u' => parts.subpath = "a/../b".into(),
